@@ -14,6 +14,7 @@ import (
 // C01: allowed origins are exactly the union of what the patterns denote.
 
 type C01Case struct {
+	Cred  bool  `json:"credentialed,omitempty"` // same question under a credentialed configuration (never together with *)
 	Pats  []Str `json:"patterns"`
 	Twin  []Str `json:"twin"`            // permutation with duplications
 	Extra []Str `json:"extra,omitempty"` // additional probes
@@ -21,7 +22,7 @@ type C01Case struct {
 
 const c01Rule = "generator: 1-6 valid origin patterns derived from a shared pool of base hosts over a tiny label alphabet " +
 	"(hosts share byte suffixes that are not label boundaries; exact and *. variants, trailing dots, IPv4/IPv6 literals, several schemes/ports), " +
-	"or long hosts up to 253 bytes with 64-byte schemes; 15% of lists additionally contain the single asterisk at a drawn position; a twin list = drawn permutation with drawn duplications; probes = complete near-miss set " +
+	"or long hosts up to 253 bytes with 64-byte schemes; ~14% of lists additionally contain the single asterisk at a drawn position, 25% are checked under a credentialed configuration; a twin list = drawn permutation with drawn duplications; probes = complete near-miss set " +
 	"of every pattern (left extension without dot, truncation on either side, deeper/shallower/sibling subdomain, scheme prefix/suffix/other, " +
 	"port absent/default/65535/digit-appended/truncated) plus drawn extras. evaluations = probe verdicts compared with the denotation model " +
 	"(GET and preflight, list and twin). non-trivial case = list with >=2 distinct patterns of which two share a non-empty host byte suffix; " +
@@ -49,7 +50,8 @@ func c01Gen(t *rapid.T) C01Case {
 	}
 	c.Twin = patStrings(twin)
 	// the single asterisk, at any position and multiplicity, makes every origin allowed
-	if chance(t, "star", 15) {
+	c.Cred = chance(t, "cred", 25)
+	if !c.Cred && chance(t, "star", 18) {
 		c.Pats = insertAt(t, c.Pats, "*")
 		c.Twin = insertAt(t, c.Twin, "*")
 		if chance(t, "star2", 30) {
@@ -141,13 +143,13 @@ func originVerdictsStar(wrap func(http.Handler) http.Handler, o string, star boo
 }
 
 func c01Check(c C01Case, rec *Recorder) *Disc {
-	cfg := Cfg{Origins: c.Pats, TolPSL: true}
+	cfg := Cfg{Origins: c.Pats, TolPSL: true, TolInsecure: true, Credentialed: c.Cred}
 	m1, err := cors.NewMiddleware(cfg.Cors())
 	if err != nil {
 		rec.Class("rejected-list")
 		return nil // acceptance of valid patterns is C13's and C05's business
 	}
-	cfg2 := Cfg{Origins: c.Twin, TolPSL: true}
+	cfg2 := Cfg{Origins: c.Twin, TolPSL: true, TolInsecure: true, Credentialed: c.Cred}
 	m2, err := cors.NewMiddleware(cfg2.Cors())
 	if err != nil {
 		return discf("list %q accepted but its permuted/duplicated twin %q rejected: %v", c.Pats, c.Twin, err)
